@@ -78,6 +78,10 @@ type C14Reply struct {
 // c14Bad are the values of S for which a handler fails or panics.
 var c14Bad = []string{"fail", "panic", "nil", "panicerr", "panicint", "panicstruct", "panicf"}
 
+// c14NilReply is the value of S for which a handler returns (nil, nil): nothing the
+// websocket API can encode (an "encoding" error for that client), `null` over REST.
+const c14NilReply = "nilreply"
+
 func c14IsBad(s string) bool {
 	for _, b := range c14Bad {
 		if s == b {
@@ -120,6 +124,8 @@ func c14Transform(tag string, a int64, s string, b []byte) (*C14Reply, error) {
 		panic(struct{ X int }{7})
 	case "panicf":
 		log.Panicf("boom %d", 7) // panics with its argument list, a []interface{}
+	case c14NilReply:
+		return nil, nil // no reply and no error
 	}
 	r := &C14Reply{A: a, S: s + "/" + tag, N: int64(len(s) + len(b))}
 	for i := len(b) - 1; i >= 0; i-- {
